@@ -39,7 +39,14 @@ def pipelines(draw):
     for k in range(n):
         scn = draw(gen.scenarios(min_jobs=1, max_jobs=5, max_groups=1))
         scn["max_nodes"] = draw(st.sampled_from([None, None, 1, 2]))
-        stages.append({"scn": scn, "own_groups": draw(st.booleans())})
+        # a stage may have a submission-level teardown command (its exit status is generated per pipeline)
+        scn["hooks"] = dict(scn["hooks"], teardown=draw(st.sampled_from([False, False, True])))
+        own = draw(st.booleans())
+        if not own:
+            # the stage runs under the pipeline's own parameters (walltime 0:10:00): estimates stay in minutes
+            for g in scn["groups"]:
+                g["tscale"] = 1
+        stages.append({"scn": scn, "own_groups": own})
     return {
         "stages": stages,
         "style": draw(st.sampled_from(["files", "commands"])),
@@ -51,6 +58,7 @@ def pipelines(draw):
         "resubmit_early_stage": draw(st.one_of(st.none(), st.none(), st.fixed_dictionaries({
             "stage": st.integers(1, max(1, n - 1)), "after": st.integers(0, 60)}))) if n >= 2 else None,
         "pipe_batch_size": draw(st.integers(1, 4)),
+        "teardown_rc": draw(st.sampled_from([0, 0, 3])),
     }
 
 
@@ -114,6 +122,10 @@ def run_case(case):
             return W.SyncResult(0)
 
         w.extra_cmds["autocfg"] = autocfg
+        w.hook_rc["teardown"] = case.get("teardown_rc", 0)
+        res_classes = []
+        if any(stg["scn"]["hooks"].get("teardown") for stg in stages):
+            res_classes.append("stage_with_teardown_command" + (":failing" if case.get("teardown_rc") else ""))
         re_ = case.get("resubmit_early_stage")
         k_early = re_["stage"] if re_ else None
         st_early = {}
@@ -134,7 +146,7 @@ def run_case(case):
 
             w.user_events.append(("resubmit-early-stage", epred, efire, True))
         sim.user_cmd(["pipeline", "submit", pfile, "-o", pout], name="login")
-        res = {"violations": [], "classes": [f"stages:{n}", "style:" + case["style"]], "nontrivial": False, "sample": None,
+        res = {"violations": [], "classes": [f"stages:{n}", "style:" + case["style"]] + res_classes, "nontrivial": False, "sample": None,
                "inconclusive": None, "counters": {}}
         v = res["violations"]
         quiescent_obs = []
